@@ -39,6 +39,7 @@ var checks = []Check{
 		Jobs: []Job{
 			{Pkg: "proc/redis", Scenarios: []string{"C20/redis"}, Shards: 16, QuickS: 90, ThoroughS: 900},
 			{Pkg: "proc/tcp", Scenarios: []string{"C20/tcp"}, Shards: 16, QuickS: 60, ThoroughS: 600},
+			{Pkg: "proc/tcp", Scenarios: []string{"C05/stack-race"}, Race: true, Shards: 1, QuickS: 120, ThoroughS: 600},
 		},
 	},
 	{
@@ -48,6 +49,7 @@ var checks = []Check{
 		Assumptions: append([]string{"recording processors (each owns a real host.Set) stand in for the real TCP/Redis processors", "the store's handlers are driven through injected wrappers instead of a live gRPC stream"}, engineAssumptions...),
 		Jobs: []Job{
 			{Pkg: "controller", Scenarios: []string{"C08/histories"}, Shards: 16, QuickS: 100, ThoroughS: 900},
+			{Pkg: "controller", Scenarios: []string{"C08/stack-race"}, Race: true, Shards: 1, QuickS: 120, ThoroughS: 600},
 			{Pkg: "controller", Scenarios: []string{"C08/race", "C08/streams"}, Shards: 16, QuickS: 60, ThoroughS: 600},
 			{Pkg: "controller", Scenarios: []string{"C08/slow-controller"}, Shards: 16, QuickS: 60, ThoroughS: 600},
 			{Pkg: "config", Scenarios: []string{"C08/discovery"}, Shards: 16, QuickS: 60, ThoroughS: 600},
@@ -72,6 +74,7 @@ var checks = []Check{
 		Jobs: []Job{
 			{Pkg: "proc/internal/lb", Scenarios: []string{"C06/round-robin", "C06/random-leastconn"}, Shards: 4, QuickS: 60, ThoroughS: 300},
 			{Pkg: "proc/tcp", Scenarios: []string{"C06/histories"}, Shards: 16, QuickS: 90, ThoroughS: 900},
+			{Pkg: "proc/tcp", Scenarios: []string{"C05/stack-race"}, Race: true, Shards: 1, QuickS: 120, ThoroughS: 600},
 			{Pkg: "proc/tcp", Scenarios: []string{"C06/race"}, Shards: 16, QuickS: 60, ThoroughS: 600},
 		},
 	},
@@ -82,6 +85,7 @@ var checks = []Check{
 		Assumptions: append([]string{"vnet models orderly close, half-close and reset; kernel behaviours such as RST on close with unread data or partial writes are outside the model"}, engineAssumptions...),
 		Jobs: []Job{
 			{Pkg: "proc/tcp", Scenarios: []string{"C05/relay"}, Shards: 16, QuickS: 90, ThoroughS: 900},
+			{Pkg: "proc/tcp", Scenarios: []string{"C05/stack-race"}, Race: true, Shards: 1, QuickS: 120, ThoroughS: 600},
 			{Pkg: "proc/tcp", Scenarios: []string{"C05/two-connections", "C05/paced"}, Shards: 8, QuickS: 60, ThoroughS: 300},
 		},
 	},
